@@ -35,6 +35,8 @@ def gen_case(st, tier, env):
     ds = gen.gen_dataset(w, n_max=8, m_max=6, n_min=2)
     dy = k.random() < 0.75
     scheme = gen.gen_scheme(w, dyadic=dy)
+    if k.random() < 0.06:
+        scheme, dy = gen.gen_mixed_magnitude_scheme(w), True  # exact ints: 1 next to 10**3 / 10**6
     calls = []
     for _ in range(k.choice([2, 3, 4])):
         a = dict(w.choice(CONFIGS)) if k.random() < 0.8 else {"alg": "BioConsert", "starters": gen.gen_starters(w)}
